@@ -269,6 +269,15 @@ def check(ctx):
         raise AnalysisError("ListOfDicts.aggregate: group keys are no longer read from self._group_keys")
     env = {"_BY": bby["_BY"]}
     sg, bg = afirst(f"_G = {AS}.unique(*_BY).deepcopy().select(*_BY)", env)
+    if bg is None:
+        # the same chain built through temporaries (firsts = self.unique(*by); groups = firsts.deepcopy().select(*by))
+        from ..forms import expand as _expand
+        for n in stm:
+            if isinstance(n, ast.Assign) and len(n.targets) == 1 and isinstance(n.targets[0], ast.Name):
+                m_ = pmatch(f"{AS}.unique(*_BY).deepcopy().select(*_BY)", _expand(ag, n.value, n, keep=(norm(env["_BY"]),)), dict(env))
+                if m_ is not None:
+                    sg, bg = n, dict(m_, _G=n.targets[0])
+                    break
     ctx.ob("AGG", ag, text(sg) if sg else "groups = self.unique(*by).deepcopy().select(*by)", sg or ag.node, bg is not None,
            "one group per distinct key combination, on deep copies (select is an in-place editor) restricted to the keys" if bg is not None else
            "groups are not self.unique(*by).deepcopy().select(*by): either the partition is another one or the editor select() runs on "
@@ -280,17 +289,28 @@ def check(ctx):
         sd = [c for f, c in calls_in(ag) if pmatch("_D.setdefault(_EX(_I), []).append(_I)", c, env) is not None
               or (isinstance(c.func, ast.Attribute) and c.func.attr == "append" and isinstance(c.func.value, ast.Call)
                   and isinstance(c.func.value.func, ast.Attribute) and c.func.value.func.attr == "setdefault")]
+        if not sd:
+            # bucket = buckets.setdefault(extract(item), []); bucket.append(item)
+            from ..forms import expand as _expand
+            for f, c in calls_in(ag):
+                if isinstance(c.func, ast.Attribute) and c.func.attr == "append" and isinstance(c.func.value, ast.Name):
+                    e_ = _expand(ag, c, c, keep=(norm(env["_EX"]), norm(env["_BY"])))
+                    if isinstance(e_.func.value, ast.Call) and isinstance(e_.func.value.func, ast.Attribute) and e_.func.value.func.attr == "setdefault":
+                        sd.append((c, e_))
+            sd = [x if isinstance(x, tuple) else (x, x) for x in sd]
+        else:
+            sd = [(x, x) for x in sd]
         okb = False
-        for c in sd:
+        for site_, c in sd:
             item = c.args[0] if c.args else None
             key = c.func.value.args[0] if c.func.value.args else None
             keys = [key]
             if isinstance(key, ast.Name):
-                keys = [d.value for d in defs_reaching(ag, key.id, c) if d.value is not None]
+                keys = [d.value for d in defs_reaching(ag, key.id, site_) if d.value is not None]
             if item is not None and keys and all(pmatch("_EX(_I)", k, dict(env, _I=item)) is not None for k in keys) \
-                    and any(k == "T" and t == f"iter:{AS}" for k, t in facts_at(ag, c)):
+                    and any(k == "T" and t == f"iter:{AS}" for k, t in facts_at(ag, site_)):
                 okb = True
-        ctx.ob("AGG", ag, text(sd[0]) if sd else "buckets.setdefault(extract(item), []).append(item)", sd[0] if sd else ag.node, okb,
+        ctx.ob("AGG", ag, text(sd[0][1]) if sd else "buckets.setdefault(extract(item), []).append(item)", sd[0][0] if sd else ag.node, okb,
                "every item is appended to its group's bucket in iteration order, keyed by the group-key extraction" if okb else
                "buckets are not filled from one pass over the receiver keyed by the same extraction",
                clause="summaries computed over exactly that group's items in their original order")
@@ -298,6 +318,9 @@ def check(ctx):
         ctx.ob("AGG", ag, "extract = operator.itemgetter(*by)", ag.node, False, "group-key extraction is not itemgetter(*by)")
     srt = [c for f, c in calls_in(ag) if isinstance(c.func, ast.Attribute) and c.func.attr == "sort"]
     ok = bool(srt) and bg is not None and pmatch("_G.sort(**dict.fromkeys(_BY, 1))", srt[0], dict(env, _G=bg["_G"])) is not None
+    if srt and bg is not None and not ok:
+        from ..forms import expand as _expand
+        ok = pmatch("_G.sort(**dict.fromkeys(_BY, 1))", _expand(ag, srt[0], srt[0], keep=(norm(bg["_G"]), norm(env["_BY"]))), dict(env, _G=bg["_G"])) is not None
     ctx.ob("AGG", ag, text(srt[0]) if srt else "groups.sort(**dict.fromkeys(by, 1))", srt[0] if srt else ag.node, ok,
            "output ordered ascending by the group keys (None last by ListOfDicts.sort)" if ok else
            "output is not sorted ascending by the same group keys with ListOfDicts.sort", clause="ordered by those keys with None last")
